@@ -1861,7 +1861,15 @@ where
             me.counts.verif_fill(&mut s);
             me.actions.recv.verif_fill(&mut s);
             me.actions.send.verif_fill(&mut s);
-            s.streams = me.store.verif_streams().map(|st| st.verif_stat()).collect();
+            s.streams = me
+                .store
+                .verif_streams()
+                .map(|(st, linked)| {
+                    let mut x = st.verif_stat();
+                    x.is_linked = linked;
+                    x
+                })
+                .collect();
             s.send_buffer_slots = send_buffer.inner.lock_quiet().verif_len();
             s
         }))
